@@ -1,76 +1,568 @@
-import MqttVerif.Conn.Lemmas.Basic
+import MqttVerif.Conn.Lemmas.TimersAccept
+import MqttVerif.Conn.Lemmas.TimersSend
 /-!
-# C15 — keep-alive timer requests are consistent and complete (first instalment)
+# C15 — keep-alive timer requests are consistent and complete
 
-Mechanism lemmas; the event/flag correspondence for every `Op` is being added on top
-(DESIGN.md §5 C15).  The driver evaluates `Mon.timersStep` and "disconnected ⇒ nothing armed"
-on every implementation trace.
+Model: `Conn.step` (L2).  Ghost state: `Mon.Armed`, maintained from the *events* of each call by
+`Mon.timersStep` (`RequestTimerReset k` arms, `RequestTimerCancel k` requires armed and clears);
+a fired timer is no longer armed when `notify_timer_fired` starts (`startArmed`).
+`flagsOf s` = the model's own `pingreq_send_set / pingreq_recv_set / pingresp_recv_set`.
+
+All theorems are for **every** configuration, state, operation (a `recv` carries arbitrary bytes
+and an arbitrary parser) and operation sequence; none is restricted to reachable states unless
+it says `Reachable`.
 -/
 set_option linter.unusedSimpArgs false
 set_option linter.unusedVariables false
 namespace MqttVerif.Conn
-open MqttVerif
+open MqttVerif Mon
 
-/-- `cancel_timers` requests a cancel exactly for the armed timers: the ghost account computed
-    from its events ends with nothing armed and never cancels an unarmed timer -/
-theorem C15_cancelTimers_consistent (c : C) (h : c.ev = []) :
-    Mon.timersStep ⟨c.s.sendSet, c.s.recvSet, c.s.respSet⟩ (cancelTimers c).ev
-      = some ⟨false, false, false⟩ := by
-  unfold cancelTimers
-  by_cases h1 : c.s.sendSet <;> by_cases h2 : c.s.recvSet <;> by_cases h3 : c.s.respSet <;>
-    simp [h1, h2, h3, h, C.push, Mon.timersStep, Mon.Armed.get, Mon.Armed.set]
+/-! ## 1. the timer events of every call are consistent with, and account for, the flags -/
 
-/-- after the transport is reported closed no timer flag remains set and the connection is
-    disconnected — for every state -/
-theorem C15_closed_unarmed (cfg : Cfg) (s : St) :
-    let s' := (step cfg s .closed).s
-    s'.sendSet = false ∧ s'.recvSet = false ∧ s'.respSet = false := by
-  simp only [step, notifyClosed]
-  have h := cancelTimers_spec
-  exact ⟨(h _).2.1, (h _).2.2.1, (h _).2.2.2.1⟩
+/-- **C15 (1)** — for every state and every call: folding the call's timer events over the
+    ghost flags (= the model flags before the call, minus the fired timer for a `.timer k` call)
+    never meets a cancel of an unarmed timer, and ends exactly in the model flags after the
+    call. -/
+theorem C15_events_match_flags (cfg : Cfg) (s : St) (op : Op) :
+    timersStep (startArmed s op) (step cfg s op).ev = some (flagsOf (step cfg s op).s) := by
+  rw [← timersStep_tev]; exact (step_inv cfg s op).g
 
-/-- fix (finding #18): while disconnected a received packet does not re-arm the receive timer -/
-theorem C15_no_refresh_while_disconnected (c : C) (h : c.s.status = .disconnected) :
-    refreshPingreqRecv c = c := by
-  simp [refreshPingreqRecv, h]
+/-- (1) for the calls that are not a timer expiry: start from the flags themselves -/
+theorem C15_events_match_flags_nontimer (cfg : Cfg) (s : St) (op : Op) (h : ∀ k, op ≠ .timer k) :
+    timersStep (flagsOf s) (step cfg s op).ev = some (flagsOf (step cfg s op).s) := by
+  have := C15_events_match_flags cfg s op
+  cases op <;> simp_all [startArmed]
 
-/-- a sent DISCONNECT leaves nothing armed -/
-theorem C15_disconnect_sent_unarmed (c : C) (p : Pkt) (hs : sizeOk c p = true)
-    (hc : c.s.status = .connected) :
-    let s' := (psV5Disconnect c p).s
-    s'.status = .disconnected ∧ s'.sendSet = false ∧ s'.recvSet = false ∧ s'.respSet = false := by
-  have h := cancelTimers_spec { c with s := { c.s with status := .disconnected } }
-  simp only [psV5Disconnect, hs, hc]
+/-- (1) for a timer expiry: the fired timer counts as not armed -/
+theorem C15_events_match_flags_timer (cfg : Cfg) (s : St) (k : Timer) :
+    timersStep ((flagsOf s).set k false) (step cfg s (.timer k)).ev
+      = some (flagsOf (step cfg s (.timer k)).s) :=
+  C15_events_match_flags cfg s (.timer k)
+
+/-- a successful fold means: at every `RequestTimerCancel k` the ghost flag of `k` was set -/
+theorem timersStep_cancel_armed (a r : Armed) (pre post : List Ev) (k : Timer)
+    (h : timersStep a (pre ++ .timerCancel k :: post) = some r) :
+    ∃ b, timersStep a pre = some b ∧ b.get k = true := by
+  rw [timersStep_append] at h
+  cases hb : timersStep a pre with
+  | none => simp [hb] at h
+  | some b =>
+    refine ⟨b, rfl, ?_⟩
+    simp only [hb, Option.bind_some, timersStep] at h
+    by_cases hk : b.get k = true
+    · exact hk
+    · simp [hk] at h
+
+/-- **C15 (1a), cancel only armed** — wherever a call emits `RequestTimerCancel k`, the timer
+    `k` is armed at that point according to the events seen so far. -/
+theorem C15_cancel_only_armed (cfg : Cfg) (s : St) (op : Op) (pre post : List Ev) (k : Timer)
+    (h : (step cfg s op).ev = pre ++ .timerCancel k :: post) :
+    ∃ b, timersStep (startArmed s op) pre = some b ∧ b.get k = true :=
+  timersStep_cancel_armed _ _ pre post k (h ▸ C15_events_match_flags cfg s op)
+
+/-- the monitor form evaluated by the driver: the fold never fails -/
+theorem C15_cancel_only_armed_mon (cfg : Cfg) (s : St) (op : Op) :
+    timersStep (startArmed s op) (step cfg s op).ev ≠ none := by
+  rw [C15_events_match_flags]; simp
+
+-- non-vacuity of the hypothesis of `C15_cancel_only_armed`: a call that emits a cancel
+example : (step ⟨.client, 2⟩ { St.init ⟨.client, 2⟩ 4 with sendSet := true } .closed).ev
+    = [] ++ .timerCancel .pingreqSend :: [] := by decide
+
+/-- the ghost flags an observer computes from the events of a whole history (`none` = some
+    call cancelled an unarmed timer) -/
+def fired (a : Armed) : Op → Armed
+  | .timer k => a.set k false
+  | _ => a
+
+def ghostRun (cfg : Cfg) : St → Armed → List Op → Option Armed
+  | _, a, [] => some a
+  | s, a, op :: ops =>
+    match timersStep (fired a op) (step cfg s op).ev with
+    | none => none
+    | some a' => ghostRun cfg (step cfg s op).s a' ops
+
+/-- **C15 (1b)** — along any operation sequence from any state, the ghost flags computed from
+    the events alone always equal the model's flags: the flags are a faithful account of what
+    the application has been told. -/
+theorem C15_ghost_equals_flags (cfg : Cfg) (s : St) (ops : List Op) :
+    ghostRun cfg s (flagsOf s) ops = some (flagsOf (run cfg s ops)) := by
+  induction ops generalizing s with
+  | nil => rfl
+  | cons op ops ih =>
+    have h := C15_events_match_flags cfg s op
+    have e : fired (flagsOf s) op = startArmed s op := by cases op <;> rfl
+    simp only [ghostRun, run, e, h]
+    exact ih _
+
+/-- (1b) from a fresh connection object: nothing armed initially -/
+theorem C15_ghost_equals_flags_init (cfg : Cfg) (ver : Nat) (ops : List Op) :
+    ghostRun cfg (St.init cfg ver) unarmed ops = some (flagsOf (run cfg (St.init cfg ver) ops)) :=
+  C15_ghost_equals_flags cfg (St.init cfg ver) ops
+
+/-! ## 2. disconnected means unarmed -/
+
+/-- **C15 (2), step form** — `status = disconnected → no timer armed` is preserved by every
+    call from every state; no side condition on the operation (in particular a `.timer k` for a
+    timer that is not armed, and `setInterval`, are covered). -/
+theorem C15_disconnected_means_unarmed_step (cfg : Cfg) (s : St) (op : Op) (h : DU s) :
+    DU (step cfg s op).s :=
+  (step_inv cfg s op).d h
+
+theorem C15_disconnected_means_unarmed_run (cfg : Cfg) (s : St) (ops : List Op) (h : DU s) :
+    DU (run cfg s ops) := by
+  induction ops generalizing s with
+  | nil => exact h
+  | cons op ops ih => exact ih _ (C15_disconnected_means_unarmed_step cfg s op h)
+
+/-- **C15 (2)** — in every reachable state: if the status is `disconnected` (the transport was
+    reported closed, a DISCONNECT was sent, a CONNACK refused the connection, or no connection
+    was ever made) no timer is armed. -/
+theorem C15_disconnected_means_unarmed (cfg : Cfg) (ver : Nat) (s : St) (h : Reachable cfg ver s) :
+    s.status = .disconnected → flagsOf s = unarmed := by
+  obtain ⟨ops, rfl⟩ := h
+  exact C15_disconnected_means_unarmed_run cfg _ ops (fun _ => rfl)
+
+-- non-vacuity: a non-initial state with armed timers satisfies `DU`, and a reachable one
+example : DU { St.init ⟨.client, 2⟩ 4 with status := .connected, sendSet := true, respSet := true } := by
+  decide
+example : Reachable ⟨.client, 2⟩ 4 (run ⟨.client, 2⟩ (St.init ⟨.client, 2⟩ 4)
+    [.send { ver := 4, kind := .connect, keepAlive := 10 }]) := ⟨_, rfl⟩
+
+/-- whatever the state, after `notify_closed` the status is `disconnected` and nothing is armed -/
+theorem C15_closed_unarms (cfg : Cfg) (s : St) :
+    (step cfg s .closed).s.status = .disconnected ∧ flagsOf (step cfg s .closed).s = unarmed := by
+  simp [step, notifyClosed_eq, flagsOf, unarmed]
+
+/-- a `send` of a DISCONNECT either is refused with a single `NotifyError` (state unchanged), or
+    cancels exactly the armed timers, sends the packet, requests the close, and leaves the
+    endpoint `disconnected` with nothing armed -/
+theorem C15_disconnect_sent_unarms (cfg : Cfg) (s : St) (p : Pkt) (hk : p.kind = .disconnect) :
+    (∃ e, step cfg s (.send p) = C.err { cfg := cfg, s := s } e) ∨
+    ((step cfg s (.send p)).s.status = .disconnected ∧ flagsOf (step cfg s (.send p)).s = unarmed ∧
+     (step cfg s (.send p)).ev = cancelEvs (flagsOf s) ++ [.send p none, .close]) := by
+  simp only [step, send]
+  split
+  · exact .inl ⟨_, rfl⟩
+  split
+  · exact .inl ⟨_, rfl⟩
+  simp only [processSend, hk]
+  split
+  · unfold psV3Disconnect
+    split
+    · exact .inl ⟨_, rfl⟩
+    · refine .inr ⟨by simp, by simp [flagsOf, unarmed], ?_⟩
+      simp [cancelTimers_ev, flagsOf]
+  · unfold psV5Disconnect
+    split
+    · exact .inl ⟨_, rfl⟩
+    split
+    · exact .inl ⟨_, rfl⟩
+    · refine .inr ⟨by simp, by simp [flagsOf, unarmed], ?_⟩
+      simp [cancelTimers_ev, flagsOf]
+
+example : (step ⟨.client, 2⟩ { St.init ⟨.client, 2⟩ 4 with status := .connected, sendSet := true, respSet := true }
+      (.send { ver := 4, kind := .disconnect, size := 2 })).ev
+    = [.timerCancel .pingreqSend, .timerCancel .pingrespRecv,
+       .send { ver := 4, kind := .disconnect, size := 2 } none, .close] := by decide
+
+/-! ## 3. no arming while disconnected -/
+
+/-- **C15 (3), strong form** — a call (local or `recv` of arbitrary bytes) that emits any
+    `RequestTimerReset` does not end in status `disconnected`. -/
+theorem C15_arming_call_not_disconnected (cfg : Cfg) (s : St) (op : Op)
+    (h : anyReset (step cfg s op).ev = true) : (step cfg s op).s.status ≠ .disconnected :=
+  (step_inv cfg s op).n (by rw [anyReset_tev]; exact h)
+
+/-- **C15 (3)** — if the status is `disconnected` before and after a call, the call emits no
+    `RequestTimerReset` (every op, including arbitrary received bytes). -/
+theorem C15_no_arming_while_disconnected (cfg : Cfg) (s : St) (op : Op)
+    (h : s.status = .disconnected) (h' : (step cfg s op).s.status = .disconnected) :
+    anyReset (step cfg s op).ev = false := by
+  cases hr : anyReset (step cfg s op).ev with
+  | false => rfl
+  | true => exact absurd h' (C15_arming_call_not_disconnected cfg s op hr)
+
+-- non-vacuity: a client with a persistent session queues a PUBREL while disconnected (the
+-- scenario of finding #14): status stays `disconnected`, and the theorem says nothing is armed
+def exOfflineClient : St :=
+  { St.init ⟨.client, 2⟩ 4 with
+    needStore := true, isClient := true, keepAliveMs := 10000
+    pidMan := (Alloc.useValue (Alloc.new 1 65535 65535) 1).2 }
+
+example :
+    exOfflineClient.status = .disconnected ∧
+    (step ⟨.client, 2⟩ exOfflineClient (.send { ver := 4, kind := .pubrel, pid := some 1 })).s.status
+      = .disconnected ∧
+    (step ⟨.client, 2⟩ exOfflineClient (.send { ver := 4, kind := .pubrel, pid := some 1 })).s.pubcomp = [1] := by
+  decide
+
+/-! ## 6. PINGREQ arms the response timer, PINGRESP cancels it -/
+
+/-- a `send` of a PINGREQ that passes the version and role checks is `process_send_*_pingreq` -/
+theorem step_send_pingreq (cfg : Cfg) (s : St) (p : Pkt) (hv : s.ver = p.ver)
+    (hr : roleMaySend cfg.role p = true) (hk : p.kind = .pingreq) :
+    step cfg s (.send p) = psPingreq { cfg := cfg, s := s } p := by
+  simp only [step, send, hv, hr, processSend, hk]
   simp
-  exact ⟨h.2.2.2.2.1, h.2.1, h.2.2.1, h.2.2.2.1⟩
 
-/-- PINGREQ interval priority: application override, then Server Keep Alive, then the
-    CONNECT keep alive; 0 disables -/
-theorem C15_interval_priority (c : C) (hcl : c.s.isClient = true) :
-    (∀ t, c.s.userInterval = some t →
-        (t > 0 → (sendPostProcess c).ev = c.ev ++ [.timerReset .pingreqSend t]) ∧
-        (t = 0 → sendPostProcess c = c)) ∧
-    (∀ t, c.s.userInterval = none → c.s.serverKeepAliveMs = some t →
-        (t > 0 → (sendPostProcess c).ev = c.ev ++ [.timerReset .pingreqSend t]) ∧
-        (t = 0 → sendPostProcess c = c)) ∧
-    (c.s.userInterval = none → c.s.serverKeepAliveMs = none →
-        (c.s.keepAliveMs > 0 → (sendPostProcess c).ev = c.ev ++ [.timerReset .pingreqSend c.s.keepAliveMs]) ∧
-        (c.s.keepAliveMs = 0 → sendPostProcess c = c)) := by
-  refine ⟨?_, ?_, ?_⟩
-  · intro t hu
-    constructor
-    · intro ht; simp [sendPostProcess, hcl, hu, ht]
-    · intro ht; subst ht; simp [sendPostProcess, hcl, hu]
-  · intro t hu hs
-    constructor
-    · intro ht; simp [sendPostProcess, hcl, hu, hs, ht]
-    · intro ht; subst ht; simp [sendPostProcess, hcl, hu, hs]
-  · intro hu hs
-    constructor
-    · intro ht; simp [sendPostProcess, hcl, hu, hs, ht]
-    · intro ht; simp [sendPostProcess, hcl, hu, hs, ht]
+/-- **C15 (6a)** — an accepted PINGREQ (connected; for v5.0 within the peer's Maximum Packet
+    Size) emits exactly: the packet, `RequestTimerReset(PingrespRecv, pingresp_recv_timeout_ms)`
+    iff that timeout is non-zero, then the client's PINGREQ-timer re-arm. -/
+theorem C15_pingreq_arms_response_timer (cfg : Cfg) (s : St) (p : Pkt) (hv : s.ver = p.ver)
+    (hr : roleMaySend cfg.role p = true) (hk : p.kind = .pingreq)
+    (hsz : p.ver = 5 → p.size ≤ s.mpsSend) (hs : s.status = .connected) :
+    (step cfg s (.send p)).ev = [.send p none] ++ armResp s ++ rearmSend s ∧
+    (step cfg s (.send p)).s.respSet = (s.respSet || decide (s.respTimeoutMs ≠ 0)) ∧
+    (∀ ms, .timerReset .pingrespRecv ms ∈ (step cfg s (.send p)).ev ↔
+      (s.respTimeoutMs ≠ 0 ∧ ms = s.respTimeoutMs)) := by
+  rw [step_send_pingreq cfg s p hv hr hk]
+  have hz : p.ver = 5 → sizeOk { cfg := cfg, s := s } p = true := by
+    intro h5; exact (sizeOk_small _ _ (by simp [hk])).2 (hsz h5)
+  obtain ⟨h1, h2, _⟩ := psPingreq_accepted { cfg := cfg, s := s } p hz hs
+  refine ⟨by simpa using h1, h2, ?_⟩
+  intro ms
+  rw [h1]
+  unfold armResp rearmSend
+  by_cases h0 : s.respTimeoutMs = 0 <;> by_cases hc : s.isClient = true ∧ pingInterval s > 0 <;>
+    simp [h0, hc] <;> omega
 
-example : ∃ c : C, c.s.isClient = true ∧ c.s.userInterval = none ∧ c.s.serverKeepAliveMs = some 7000 :=
-  ⟨{ cfg := ⟨.client, 2⟩, s := { (St.init ⟨.client, 2⟩ 5) with isClient := true, serverKeepAliveMs := some 7000 } }, rfl, rfl, rfl⟩
+-- non-vacuity: a connected v3.1.1 client with a 5 s response timeout and keep-alive 10 s
+def exConnectedClient : St :=
+  { St.init ⟨.client, 2⟩ 4 with
+    status := .connected, isClient := true, keepAliveMs := 10000, respTimeoutMs := 5000 }
+
+example : (step ⟨.client, 2⟩ exConnectedClient (.send (mkPingreq 4))).ev
+    = [.send (mkPingreq 4) none, .timerReset .pingrespRecv 5000, .timerReset .pingreqSend 10000] := by
+  decide
+
+/-- **C15 (6b)** — a received PINGRESP emits `RequestTimerCancel(PingrespRecv)` iff the response
+    timer is armed, then the notification; afterwards the response timer is not armed. -/
+theorem C15_pingresp_cancels (c : C) (p : Pkt) :
+    (dispatchRecv c 13 (.ok p)).ev
+      = c.ev ++ (if c.s.respSet then [.timerCancel .pingrespRecv] else []) ++ [.recv p] ∧
+    (dispatchRecv c 13 (.ok p)).s.respSet = false := by
+  have := prPingresp_ok c p
+  exact ⟨this.1, this.2.1⟩
+
+-- end to end through the framing layer: the two bytes of a PINGRESP
+example : (step ⟨.client, 2⟩ { exConnectedClient with respSet := true }
+      (.recv [0xD0, 0x00] (fun v _ _ => .ok (mkPingresp v)))).ev
+    = [.timerCancel .pingrespRecv, .recv (mkPingresp 4)] := by
+  decide
+
+/-! ## 7. the effect of each expiry -/
+
+/-- **C15 (7a)** — PINGREQ-send timer fires on an established v3.1.1 connection: a PINGREQ is
+    sent (and the response timer and the PINGREQ timer are armed as for any PINGREQ). -/
+theorem C15_expiry_pingreq_send_v3 (cfg : Cfg) (s : St) (hs : s.status = .connected) (hv : s.ver = 4) :
+    (step cfg s (.timer .pingreqSend)).ev = [.send (mkPingreq 4) none] ++ armResp s ++ rearmSend s := by
+  have e : step cfg s (.timer .pingreqSend)
+      = psPingreq { cfg := cfg, s := { s with sendSet := false } } (mkPingreq 4) := by
+    simp [step, notifyTimerFired, hs, hv]
+  rw [e]
+  exact (psPingreq_accepted _ _ (by simp [mkPingreq]) hs).1
+
+/-- **C15 (7a)**, v5.0: the PINGREQ is sent when its two bytes fit the peer's Maximum Packet
+    Size, otherwise the call reports `PacketTooLarge` and nothing else. -/
+theorem C15_expiry_pingreq_send_v5 (cfg : Cfg) (s : St) (hs : s.status = .connected) (hv : s.ver = 5) :
+    (step cfg s (.timer .pingreqSend)).ev =
+      if 2 ≤ s.mpsSend then [.send (mkPingreq 5) none] ++ armResp s ++ rearmSend s
+      else [.error eTooLarge] := by
+  have e : step cfg s (.timer .pingreqSend)
+      = psPingreq { cfg := cfg, s := { s with sendSet := false } } (mkPingreq 5) := by
+    simp [step, notifyTimerFired, hs, hv]
+  rw [e]
+  have hz := sizeOk_small { cfg := cfg, s := { s with sendSet := false } } (mkPingreq 5) (by simp [mkPingreq])
+  by_cases hm : 2 ≤ s.mpsSend
+  · rw [if_pos hm]
+    exact (psPingreq_accepted _ _ (fun _ => hz.2 hm) hs).1
+  · rw [if_neg hm]
+    have hz' : sizeOk { cfg := cfg, s := { s with sendSet := false } } (mkPingreq 5) = false := by
+      cases h : sizeOk { cfg := cfg, s := { s with sendSet := false } } (mkPingreq 5) with
+      | false => rfl
+      | true => exact absurd (hz.1 h) hm
+    unfold psPingreq
+    rw [if_pos ⟨rfl, by rw [hz']; rfl⟩]
+    rfl
+
+/-- **C15 (7a)**, not connected: the expiry only clears the flag -/
+theorem C15_expiry_pingreq_send_not_connected (cfg : Cfg) (s : St) (hs : s.status ≠ .connected) :
+    (step cfg s (.timer .pingreqSend)).ev = [] ∧
+    (step cfg s (.timer .pingreqSend)).s = { s with sendSet := false } := by
+  simp [step, notifyTimerFired, hs]
+
+/-- **C15 (7b)** — a receive-side timeout (PINGREQ not received / PINGRESP not received) on a
+    v3.1.1 connection: exactly a close request. -/
+theorem C15_expiry_timeout_v3 (cfg : Cfg) (s : St) (k : Timer) (hk : k ≠ .pingreqSend) (hv : s.ver = 4) :
+    (step cfg s (.timer k)).ev = [.close] := by
+  cases k
+  · exact absurd rfl hk
+  · simp [step, notifyTimerFired, hv]
+  · simp [step, notifyTimerFired, hv]
+
+/-- **C15 (7b)**, v5.0 on an established connection: the remaining timers are cancelled, a
+    DISCONNECT with reason 0x8D (Keep Alive timeout) is sent if its three bytes fit the peer's
+    Maximum Packet Size, and the close is requested either way; the connection ends
+    disconnected with nothing armed. -/
+theorem C15_expiry_timeout_v5 (cfg : Cfg) (s : St) (k : Timer) (hk : k ≠ .pingreqSend) (hv : s.ver = 5)
+    (hs : s.status = .connected) :
+    (step cfg s (.timer k)).ev = cancelEvs ((flagsOf s).set k false) ++
+      (if 3 ≤ s.mpsSend then [.send (mkV5Disconnect 141) none, .close] else [.close]) ∧
+    (step cfg s (.timer k)).s.status = .disconnected ∧
+    flagsOf (step cfg s (.timer k)).s = unarmed := by
+  cases k
+  · exact absurd rfl hk
+  · have e : step cfg s (.timer .pingreqRecv)
+        = v5DisconnectOrClose { cfg := cfg, s := { s with recvSet := false } } (mkV5Disconnect eKeepAliveTimeout) := by
+      simp [step, notifyTimerFired, hv, hs]
+    rw [e]
+    have hz := sizeOk_small { cfg := cfg, s := { s with recvSet := false } } (mkV5Disconnect eKeepAliveTimeout)
+      (by simp [mkV5Disconnect])
+    obtain ⟨h1, h2, h3⟩ := v5DisconnectOrClose_connected { cfg := cfg, s := { s with recvSet := false } }
+      (mkV5Disconnect eKeepAliveTimeout) hs
+    refine ⟨?_, h2, h3⟩
+    rw [h1]
+    by_cases hm : 3 ≤ s.mpsSend
+    · rw [if_pos hm, if_pos (hz.2 hm)]; rfl
+    · rw [if_neg hm, if_neg (fun h => hm (hz.1 h))]; rfl
+  · have e : step cfg s (.timer .pingrespRecv)
+        = v5DisconnectOrClose { cfg := cfg, s := { s with respSet := false } } (mkV5Disconnect eKeepAliveTimeout) := by
+      simp [step, notifyTimerFired, hv, hs]
+    rw [e]
+    have hz := sizeOk_small { cfg := cfg, s := { s with respSet := false } } (mkV5Disconnect eKeepAliveTimeout)
+      (by simp [mkV5Disconnect])
+    obtain ⟨h1, h2, h3⟩ := v5DisconnectOrClose_connected { cfg := cfg, s := { s with respSet := false } }
+      (mkV5Disconnect eKeepAliveTimeout) hs
+    refine ⟨?_, h2, h3⟩
+    rw [h1]
+    by_cases hm : 3 ≤ s.mpsSend
+    · rw [if_pos hm, if_pos (hz.2 hm)]; rfl
+    · rw [if_neg hm, if_neg (fun h => hm (hz.1 h))]; rfl
+
+/-- **C15 (7b)**, v5.0 while not connected: the expiry only clears the flag -/
+theorem C15_expiry_timeout_v5_not_connected (cfg : Cfg) (s : St) (k : Timer) (hk : k ≠ .pingreqSend)
+    (hv : s.ver = 5) (hs : s.status ≠ .connected) :
+    (step cfg s (.timer k)).ev = [] ∧ flagsOf (step cfg s (.timer k)).s = (flagsOf s).set k false := by
+  cases k
+  · exact absurd rfl hk
+  · simp [step, notifyTimerFired, hv, hs, flagsOf, Armed.set]
+  · simp [step, notifyTimerFired, hv, hs, flagsOf, Armed.set]
+
+-- non-vacuity of (7): v5.0 server, PINGREQ-receive timeout, with and without room for DISCONNECT
+def exV5Server (mps : Nat) : St :=
+  { St.init ⟨.server, 2⟩ 5 with
+    status := .connected, recvSet := true, recvTimeoutMs := 15000, mpsSend := mps, respSet := true }
+
+example : (step ⟨.server, 2⟩ (exV5Server 100) (.timer .pingreqRecv)).ev
+    = [.timerCancel .pingrespRecv, .send (mkV5Disconnect 141) none, .close] := by decide
+example : (step ⟨.server, 2⟩ (exV5Server 2) (.timer .pingreqRecv)).ev
+    = [.timerCancel .pingrespRecv, .close] := by decide
+example : (step ⟨.server, 2⟩ (exV5Server 1) (.timer .pingreqSend)).ev = [.error eTooLarge] := by decide
+example : (step ⟨.client, 2⟩ exConnectedClient (.timer .pingrespRecv)).ev = [.close] := by decide
+example : (step ⟨.client, 2⟩ exConnectedClient (.timer .pingreqSend)).ev
+    = [.send (mkPingreq 4) none, .timerReset .pingrespRecv 5000, .timerReset .pingreqSend 10000] := by decide
+
+/-! ## 5. a server re-arms the 1.5 × keep-alive receive timer on every packet it accepts -/
+
+/-- **C15 (5a)** — a CONNECT received while disconnected sets the receive timeout to
+    1.5 × keep-alive (ms) — 0 for keep-alive 0, whatever an earlier connection used, because
+    `initialize` resets it (finding #3) — and arms the timer iff keep-alive ≠ 0. -/
+theorem C15_connect_sets_recv_timeout (c : C) (p : Pkt) (hs : c.s.status = .disconnected) :
+    (dispatchRecv c 1 (.ok p)).s.recvTimeoutMs = recvTimeoutOf p.keepAlive ∧
+    (dispatchRecv c 1 (.ok p)).ev = c.ev ++
+      (if p.keepAlive ≠ 0 then [.timerReset .pingreqRecv (recvTimeoutOf p.keepAlive)] else []) ++ [.recv p] ∧
+    (dispatchRecv c 1 (.ok p)).s.status = .connecting := by
+  simp only [dispatchRecv]
+  split
+  · have := prV3Connect_ok c p hs; exact ⟨this.2.1, this.1, this.2.2.1⟩
+  · have := prV5Connect_ok c p hs; exact ⟨this.2.1, this.1, this.2.2.1⟩
+
+theorem C15_recv_timeout_values : recvTimeoutOf 0 = 0 ∧ recvTimeoutOf 10 = 15000 ∧
+    ∀ k, k ≠ 0 → recvTimeoutOf k ≠ 0 :=
+  ⟨rfl, rfl, recvTimeoutOf_pos⟩
+
+-- end to end: a version-undetermined server whose previous connection used 15 s receives the
+-- 14 bytes of a v3.1.1 CONNECT with keep-alive 0, resp. 10
+def exConnectBytes : List Nat := [0x10, 12, 0, 4, 77, 81, 84, 84, 4, 2, 0, 10, 0, 0]
+example : (step ⟨.server, 2⟩ { St.init ⟨.server, 2⟩ 0 with recvTimeoutMs := 15000 }
+      (.recv exConnectBytes (fun v _ _ => .ok { ver := v, kind := .connect, keepAlive := 0 }))).ev
+    = [.recv { ver := 4, kind := .connect, keepAlive := 0 }] := by decide
+example : (step ⟨.server, 2⟩ { St.init ⟨.server, 2⟩ 0 with recvTimeoutMs := 15000 }
+      (.recv exConnectBytes (fun v _ _ => .ok { ver := v, kind := .connect, keepAlive := 10 }))).ev
+    = [.timerReset .pingreqRecv 15000, .recv { ver := 4, kind := .connect, keepAlive := 10 }] := by decide
+
+/-- **C15 (5b)** — every handler of an inbound packet other than CONNECT (5a), CONNACK,
+    PINGRESP (client side) and DISCONNECT (cancels the timers) ends in one of four ways:
+    refused (`NotifyError` last), a panic site (C05), or — accepted, or answered as a QoS 2
+    duplicate — the events end with the re-arm `RequestTimerReset(PingreqRecv, recv_timeout)`,
+    present iff `recv_timeout ≠ 0` and the status is not `disconnected` (both as at the start
+    of the call), followed by the notification if there is one. -/
+theorem C15_server_rearms_on_accept (c : C) (t : Nat) (pp : Except Nat Pkt)
+    (ht : t ≠ 1 ∧ t ≠ 2 ∧ t ≠ 13 ∧ t ≠ 14) :
+    (∃ m e, dispatchRecv c t pp = C.err m e) ∨
+    (∃ m site, dispatchRecv c t pp = C.setPanic m site) ∨
+    (∃ pre tail, (tail = [] ∨ ∃ p, tail = [.recv p]) ∧
+      (dispatchRecv c t pp).ev = pre ++
+        (if c.s.recvTimeoutMs ≠ 0 ∧ c.s.status ≠ .disconnected
+          then [.timerReset .pingreqRecv c.s.recvTimeoutMs] else []) ++ tail ∧
+      (c.s.recvTimeoutMs ≠ 0 ∧ c.s.status ≠ .disconnected → (dispatchRecv c t pp).s.recvSet = true)) := by
+  have ho := dispatchRecv_outcome c t pp ht
+  generalize dispatchRecv c t pp = d at ho ⊢
+  cases ho with
+  | rejected m e => exact .inl ⟨m, e, rfl⟩
+  | panic m site => exact .inr (.inl ⟨m, site, rfl⟩)
+  | accepted m p h =>
+    refine .inr (.inr ⟨m.ev, [.recv p], .inr ⟨p, rfl⟩, ?_, ?_⟩)
+    · simp [refresh_ev, rearmRecv, h]
+    · intro hc
+      have hm : m.s.recvTimeoutMs ≠ 0 ∧ m.s.status ≠ .disconnected := by rw [h.2.1, h.2.2]; exact hc
+      simp [refreshPingreqRecv, hm]
+  | duplicate m h =>
+    refine .inr (.inr ⟨m.ev, [], .inl rfl, ?_, ?_⟩)
+    · simp [refresh_ev, rearmRecv, h]
+    · intro hc
+      have hm : m.s.recvTimeoutMs ≠ 0 ∧ m.s.status ≠ .disconnected := by rw [h.2.1, h.2.2]; exact hc
+      simp [refreshPingreqRecv, hm]
+
+-- non-vacuity: a connected server with a 15 s receive timeout receives the two bytes of PINGREQ
+def exServer : St :=
+  { St.init ⟨.server, 2⟩ 4 with status := .connected, recvTimeoutMs := 15000 }
+example : (step ⟨.server, 2⟩ exServer (.recv [0xC0, 0x00] (fun v _ _ => .ok (mkPingreq v)))).ev
+    = [.timerReset .pingreqRecv 15000, .recv (mkPingreq 4)] := by decide
+example : (step ⟨.server, 2⟩ { exServer with recvTimeoutMs := 0 }
+      (.recv [0xC0, 0x00] (fun v _ _ => .ok (mkPingreq v)))).ev = [.recv (mkPingreq 4)] := by decide
+
+/-! ## 4. a client re-arms the PINGREQ timer after every packet it sends -/
+
+/-- the interval is chosen by priority: application override, then Server Keep Alive, then the
+    CONNECT keep-alive -/
+theorem C15_ping_interval_priority (s : St) :
+    pingInterval s = s.userInterval.getD (s.serverKeepAliveMs.getD s.keepAliveMs) := by
+  unfold pingInterval; cases s.userInterval <;> cases s.serverKeepAliveMs <;> rfl
+
+/-- what `send_post_process` does, exactly: for a client whose interval is non-zero, one
+    `RequestTimerReset(PingreqSend, interval)`; otherwise nothing (0 disables) -/
+theorem C15_send_post_process (c : C) :
+    (sendPostProcess c).ev = c.ev ++
+      (if c.s.isClient ∧ pingInterval c.s > 0 then [.timerReset .pingreqSend (pingInterval c.s)] else []) :=
+  sendPostProcess_ev c
+
+/-- **C15 (4)** — every `send` call, whatever the packet and the state, ends in one of three
+    ways: (i) nothing was sent and no timer event was emitted; (ii) the connection ended
+    (DISCONNECT sent / CONNACK refusing: status `disconnected`, see (2)); (iii) the call's events
+    are `pre ++ re-arm` where `pre` contains no PINGREQ-timer event at all and the re-arm is
+    `RequestTimerReset(PingreqSend, interval)` iff the endpoint is a client and the interval by
+    priority is non-zero (state after the call; CONNECT makes the endpoint a client and sets the
+    keep-alive first). -/
+theorem C15_client_rearms_after_send (cfg : Cfg) (s : St) (p : Pkt) :
+    (sends (step cfg s (.send p)).ev = [] ∧ tev (step cfg s (.send p)).ev = []) ∨
+    (step cfg s (.send p)).s.status = .disconnected ∨
+    (∃ pre, (step cfg s (.send p)).ev = pre ++ rearmSend (step cfg s (.send p)).s ∧ stev pre = []) := by
+  have h := send_sendok { cfg := cfg, s := s } p
+  simp only [step]
+  rcases h with h | h | ⟨m, hm, hs⟩
+  · exact .inl h
+  · exact .inr (.inl h)
+  · refine .inr (.inr ⟨m.ev, ?_, hs⟩)
+    rw [hm, sendPostProcess_ev, rearmSend_spp]
+
+/-- (4) in the form of the full statement, for the `send` calls: after every
+    `RequestSendPacket` of the call a re-arm with the priority interval follows -/
+theorem C15_client_rearms_after_send_partial (cfg : Cfg) (s : St) (p : Pkt)
+    (pre post : List Ev) (q : Pkt) (rel : Option Nat)
+    (he : (step cfg s (.send p)).ev = pre ++ .send q rel :: post)
+    (hc : (step cfg s (.send p)).s.isClient = true)
+    (hs : (step cfg s (.send p)).s.status ≠ .disconnected)
+    (hi : pingInterval (step cfg s (.send p)).s > 0) :
+    .timerReset .pingreqSend (pingInterval (step cfg s (.send p)).s) ∈ post := by
+  rcases C15_client_rearms_after_send cfg s p with ⟨h, _⟩ | h | ⟨pre', h, _⟩
+  · rw [he] at h; simp at h
+  · exact absurd h hs
+  · rw [he] at h
+    simp only [rearmSend, hc, hi, and_self, if_true] at h
+    rcases List.eq_nil_or_concat post with hp | ⟨post', x, hp⟩
+    · subst hp
+      have := List.append_inj_right' (t₁ := [Ev.send q rel]) h rfl
+      simp at this
+    · subst hp
+      have h' : (pre ++ .send q rel :: post') ++ [x]
+          = pre' ++ [.timerReset .pingreqSend (pingInterval (step cfg s (.send p)).s)] := by
+        simpa using h
+      have := List.append_inj_right' h' rfl
+      simp at this
+      simp [this]
+
+/-- the exception (finding #26): stored packets a client resends on a *received* CONNACK
+    (session present) are not followed by a re-arm.  `C15_client_rearms_full` is the property for
+    every call; it is false. -/
+def C15_client_rearms_full : Prop :=
+  ∀ (cfg : Cfg) (s : St) (op : Op) (pre post : List Ev) (q : Pkt) (rel : Option Nat),
+    (step cfg s op).ev = pre ++ .send q rel :: post →
+    (step cfg s op).s.isClient = true → (step cfg s op).s.status ≠ .disconnected →
+    pingInterval (step cfg s op).s > 0 →
+    .timerReset .pingreqSend (pingInterval (step cfg s op).s) ∈ post
+
+def exStoredPublish : Pkt := { ver := 4, kind := .publish, qos := 1, pid := some 1, dup := true, topic := [97] }
+def exConnackSP : Pkt := { ver := 4, kind := .connack, rc := some 0, sp := true }
+
+/-- a v3.1.1 client (keep-alive 10 s) that sent CONNECT with a stored QoS 1 PUBLISH -/
+def exResumingClient : St :=
+  { St.init ⟨.client, 2⟩ 4 with
+    status := .connecting, isClient := true, keepAliveMs := 10000, needStore := true
+    store := [(1, exStoredPublish)], puback := [1]
+    pidMan := (Alloc.useValue (Alloc.new 1 65535 65535) 1).2 }
+
+theorem C15_resend_on_connack_no_rearm_witness :
+    (step ⟨.client, 2⟩ exResumingClient (.recv [0x20, 2, 1, 0] (fun _ _ _ => .ok exConnackSP))).ev
+      = [.send exStoredPublish none, .recv exConnackSP] ∧
+    (step ⟨.client, 2⟩ exResumingClient (.recv [0x20, 2, 1, 0] (fun _ _ _ => .ok exConnackSP))).s.status
+      = .connected ∧
+    pingInterval
+      (step ⟨.client, 2⟩ exResumingClient (.recv [0x20, 2, 1, 0] (fun _ _ _ => .ok exConnackSP))).s
+      = 10000 := by
+  decide
+
+theorem C15_client_rearms_full_false : ¬ C15_client_rearms_full := by
+  intro h
+  have w := C15_resend_on_connack_no_rearm_witness
+  have := h ⟨.client, 2⟩ exResumingClient (.recv [0x20, 2, 1, 0] (fun _ _ _ => .ok exConnackSP))
+    [] [.recv exConnackSP] exStoredPublish none (by rw [w.1]; rfl) (by decide) (by rw [w.2.1]; decide)
+    (by rw [w.2.2]; decide)
+  simp at this
+
+-- non-vacuity of (4): override beats Server Keep Alive beats keep-alive; 0 disables
+example : (step ⟨.client, 2⟩ exConnectedClient (.send (mkAck ⟨.client, 2⟩ 4 .puback 7))).ev
+    = [.send (mkAck ⟨.client, 2⟩ 4 .puback 7) none, .timerReset .pingreqSend 10000] := by decide
+example : (step ⟨.client, 2⟩ { exConnectedClient with serverKeepAliveMs := some 3000 }
+      (.send (mkAck ⟨.client, 2⟩ 4 .puback 7))).ev
+    = [.send (mkAck ⟨.client, 2⟩ 4 .puback 7) none, .timerReset .pingreqSend 3000] := by decide
+example : (step ⟨.client, 2⟩ { exConnectedClient with serverKeepAliveMs := some 3000, userInterval := some 500 }
+      (.send (mkAck ⟨.client, 2⟩ 4 .puback 7))).ev
+    = [.send (mkAck ⟨.client, 2⟩ 4 .puback 7) none, .timerReset .pingreqSend 500] := by decide
+example : (step ⟨.client, 2⟩ { exConnectedClient with serverKeepAliveMs := some 3000, userInterval := some 0 }
+      (.send (mkAck ⟨.client, 2⟩ 4 .puback 7))).ev
+    = [.send (mkAck ⟨.client, 2⟩ 4 .puback 7) none] := by decide
+
+/-! ## non-vacuity of the remaining hypotheses -/
+
+example : ∀ k, Op.closed ≠ .timer k := by intro k h; cases h
+example : timersStep ⟨true, false, false⟩ ([] ++ .timerCancel .pingreqSend :: []) = some unarmed := by decide
+example : anyReset (step ⟨.client, 2⟩ exConnectedClient (.send (mkAck ⟨.client, 2⟩ 4 .puback 7))).ev = true := by
+  decide
+example : exConnectedClient.ver = (mkPingreq 4).ver ∧ roleMaySend Role.client (mkPingreq 4) = true ∧
+    (mkPingreq 4).kind = .pingreq ∧ exConnectedClient.status = .connected := by decide
+example : (exV5Server 100).status = .connected ∧ (exV5Server 100).ver = 5 ∧
+    exConnectedClient.ver = 4 ∧ Timer.pingreqRecv ≠ Timer.pingreqSend := by decide
+example : (St.init ⟨.server, 2⟩ 5).status ≠ .connected ∧ (St.init ⟨.server, 2⟩ 5).ver = 5 := by decide
+example : ({ cfg := ⟨.server, 2⟩, s := St.init ⟨.server, 2⟩ 4 } : C).s.status = .disconnected := by decide
+example : (12 : Nat) ≠ 1 ∧ (12 : Nat) ≠ 2 ∧ (12 : Nat) ≠ 13 ∧ (12 : Nat) ≠ 14 := by decide
+example :
+    (step ⟨.client, 2⟩ exConnectedClient (.send (mkAck ⟨.client, 2⟩ 4 .puback 7))).ev
+      = [] ++ .send (mkAck ⟨.client, 2⟩ 4 .puback 7) none :: [.timerReset .pingreqSend 10000] ∧
+    (step ⟨.client, 2⟩ exConnectedClient (.send (mkAck ⟨.client, 2⟩ 4 .puback 7))).s.isClient = true ∧
+    (step ⟨.client, 2⟩ exConnectedClient (.send (mkAck ⟨.client, 2⟩ 4 .puback 7))).s.status ≠ .disconnected ∧
+    pingInterval (step ⟨.client, 2⟩ exConnectedClient (.send (mkAck ⟨.client, 2⟩ 4 .puback 7))).s > 0 := by
+  decide
 
 end MqttVerif.Conn
